@@ -57,6 +57,16 @@ def scanDoc (env : Bytes) : SSt × Bytes := scanFrom ADDR_DOC .expectF env
 inductive FileId | mess | intd
   deriving DecidableEq, Repr
 
+/-- the two kinds of signal qmail-queue catches: SIGALRM (`sigalrm`, the 24 h timer) and the
+"bug" signals of `sig_bugcatch` (`sigbug`: SIGILL, SIGABRT, SIGFPE, SIGBUS, SIGSEGV, SIGSYS) -/
+inductive Sig | alrm | bug
+  deriving DecidableEq, Repr
+
+/-- what the handler of the signal passes to `die`: neither handler calls `cleanup()` -/
+def sigCode : Sig → Nat
+  | .alrm => 52
+  | .bug => 81
+
 inductive Ev
   | alarm (n : Nat)
   | openPid (seq : Nat) (ok : Bool)
@@ -75,6 +85,7 @@ inductive Ev
   | trigOpen (ok : Bool)
   | trigWrite
   | trigClose
+  | signal (g : Sig)                     -- a caught signal is delivered: the handler runs
   | exit (code : Nat)
   deriving DecidableEq, Repr
 
@@ -84,6 +95,7 @@ inductive PC
   | messCopy | intdOpen | envCopy | linkTodo | trig | trigW | trigC
   | clIntdTrunc (code : Nat) | clIntdUnlink (code : Nat) | clMessTrunc (code : Nat) | clMessUnlink (code : Nat)
   | dying (code : Nat) | exited (code : Nat)
+  | handler (code : Nat)       -- inside `sigalrm()` / `sigbug()`: `die(code)` and nothing else
   deriving DecidableEq, Repr
 
 structure Params where
@@ -188,9 +200,27 @@ def accept (p : Params) (s : St) : Ev → Option St
     match s.pc with
     | .clMessUnlink c => some { s with pc := .dying c }
     | _ => none
+  | .signal g =>
+    -- the handlers are installed just before `alarm(DEATH)`; a signal may arrive at any later point,
+    -- also between two calls of `cleanup()` or right before `_exit`.  (Before that point the default
+    -- action kills the process: the trace simply stops, which prefix-closure covers.)
+    match s.pc with
+    | .start | .handler _ | .exited _ => none
+    | _ => some { s with pc := .handler (sigCode g) }
   | .exit code =>
     match s.pc with
     | .dying c => if code = c then some { s with pc := .exited code } else none
+    -- `sigalrm()` / `sigbug()`: "thou shalt not clean up here" - `_exit` is the only thing that follows
+    | .handler c => if code = c then some { s with pc := .exited code } else none
+    -- before `alarm(DEATH)`: `chdir(auto_qmail)` failed (61), `chdir("queue")` failed (62), or the
+    -- allocation of the Received line failed (51); these library calls are not traced, the trace
+    -- shows the exit only.  Nothing has been created.
+    | .start => if code = 61 ∨ code = 62 ∨ code = 51 then some { s with pc := .exited code } else none
+    -- `pidopen()`: the allocation of the pid file name failed, before the first `open_excl`
+    | .pidOpen k => if k = 1 ∧ code = 51 then some { s with pc := .exited 51 } else none
+    -- `fnnum()` after the successful `fstat`: allocation failure, `die(51)` WITHOUT cleanup - the pid
+    -- file stays
+    | .linkMess => if code = 51 then some { s with pc := .exited 51 } else none
     | .envCopy =>
       -- `die(91)` / `die(11)`: no cleanup
       match (scan (p.env.take s.envRead)).1 with
@@ -204,6 +234,36 @@ def acceptAll (p : Params) : St → List Ev → Option St
   | s, e :: es => match accept p s e with
     | some s' => acceptAll p s' es
     | none => none
+
+/-! ### The documented exit code of a run in which nothing fails -/
+
+/-- qmail-queue.8: 0 = accepted, 91 = "envelope format error", 11 = "address too long",
+54 = "unable to read the message or envelope" (here: the envelope stream ends before its
+terminator) -/
+def docCode : SSt → Nat
+  | .done => 0
+  | .bad => 91
+  | .long => 11
+  | _ => 54
+
+/-- events that report a failure which decides the exit code by itself: a failing call other than
+EINTR (which is retried), other than `ftruncate`/`unlink` inside `cleanup()` (they only decide what
+stays behind) and other than the trigger pull (best effort); the ninth failing `open_excl` of the
+pid file (the first eight are retried under the next name); a caught signal; the exits 51/61/62
+(allocation or `chdir` failure - library calls the trace does not show). -/
+def Faulty : Ev → Bool
+  | .openPid seq ok => !ok && decide (9 ≤ seq)
+  | .fstatPid ok => !ok
+  | .linkMess ok => !ok
+  | .unlinkPid ok => !ok
+  | .readErr _ intr => !intr
+  | .writeErr _ intr => !intr
+  | .fsync _ ok => !ok
+  | .openIntd ok => !ok
+  | .linkTodo ok => !ok
+  | .signal _ => true
+  | .exit code => code == 51 || code == 61 || code == 62
+  | _ => false
 
 /-! ### Abstract file system of one queue entry, and crashes -/
 
